@@ -97,7 +97,7 @@ FULL = runner.ALL_KEYS
 CONFIG = {
     "C01": dict(profile=dict(p_addoption=0.08, p_repeat_opt=0.5, p_required=0.03, p_bad_value=0.03, p_ev_unknown=0.02, p_ev_garbage=0.01, p_group=0.45, p_namespace=0.7,
                              p_commands=0.5, n_events=(1, 9), p_untagged=0.2, p_init=0.3, p_mutate_argv=0.03),
-                keys=["panic", "err", "vals", "calls", "attached"], transform=t_err_type_only, theorems="C01_*"),
+                keys=["panic", "err", "vals", "calls", "attached", "set"], transform=t_err_type_only, theorems="C01_*"),
     "C02": dict(profile=dict(p_required=0.02, p_mb_short=0.25, p_quoted=0.3, p_bad_value=0.05, p_commands=0.2, p_ev_unknown=0.02, p_ev_garbage=0.01),
                 keys=FULL, transform=common.hide_help, theorems="C02_*"),
     "C03": dict(profile=dict(p_required=0.02, p_passdd=0.7, p_passafter=0.4, p_ignore=0.4, p_ev_plain=0.3, p_ev_term=0.1, p_ev_unknown=0.12,
@@ -109,10 +109,10 @@ CONFIG = {
                              p_group=0.6, p_envns=0.7, p_ev_unknown=0.01, p_ev_garbage=0.0, p_mutate_argv=0.0, p_bad_default=0.02,
                              types=[("bool", 6), ("int", 8), ("uint8", 3), ("float64", 3), ("string", 12), ("duration", 2), ("custom", 3),
                                     ("ptr", 6), ("slice", 18), ("map", 14), ("func", 3)]),
-                keys=["panic", "err", "vals"], transform=t_err_type_only, theorems="C05_*"),
+                keys=["panic", "err", "vals", "set"], transform=t_err_type_only, theorems="C05_*"),
     "C06": dict(profile=dict(p_addoption=0.08, p_required=0.45, p_positional=0.6, p_pos_required=0.7, p_commands=0.6, p_bad_value=0.01, p_ev_unknown=0.01, p_ev_garbage=0.0,
                              p_default=0.1, n_events=(0, 7), p_mutate_argv=0.02),
-                keys=["panic", "err", "exec"], transform=common.hide_help, oracle=oracle_c09, theorems="C06_*"),
+                keys=["panic", "err", "exec", "set"], transform=common.hide_help, oracle=oracle_c09, theorems="C06_*"),
     "C07": dict(profile=dict(p_ev_unknown=0.3, p_wrong_scope=0.3, p_ignore=0.35, p_handler=0.45, p_required=0.02, p_commands=0.6, p_bad_value=0.02,
                              p_namespace=0.8, p_group=0.4, p_ev_cmd=0.2, max_depth=3, p_subopt=0.4, p_sibling_cmd=0.35),
                 keys=["panic", "err", "unknown", "ret", "vals"], transform=common.hide_help, theorems="C07_*"),
@@ -144,7 +144,7 @@ def c05_history_stream(rep, rng, tier):
     def make(r):
         sc, g = inichecks.make_ini_scenario(r, prof, p_noise=0.05, p_fault=0.0, p_unknown=0.0, asdef_p=0.65, with_parse=True)
         return sc
-    return common.scenario_check(rep, rng, "C05", 250 if tier == "quick" else 8000, keys=["panic", "err", "vals"], transform=t_err_type_only,
+    return common.scenario_check(rep, rng, "C05", 250 if tier == "quick" else 8000, keys=["panic", "err", "vals", "set"], transform=t_err_type_only,
                                  theorem_names="C05_*", stream="ini+parse", make=make)
 
 
